@@ -121,7 +121,7 @@ reg(
     "Non-trivial: N >= 2 and weights not all equal. Distinct = (N, method, weights rounded to 1e-3).",
     quick={"shards": 16, "timeout_s": 3000, "n_cases": 40, "n_runs": 1500, "stat_every": 8,
            "required_classes": ["C12.systematic", "C12.categorical", "C12.w_degenerate", "C12.w_partly_neg_inf", "C12.w_near_uniform",
-                                "C12.w_wide_range", "C12.w_generic", "C12.N_1", "C12.N_large", "C12.offset_cells_probed", "C12.common_shift_down", "C12.common_shift_up"]},
+                                "C12.w_wide_range", "C12.w_generic", "C12.w_mildly_uneven", "C12.N_1", "C12.N_large", "C12.offset_cells_probed", "C12.common_shift_down", "C12.common_shift_up"]},
     thorough={"shards": 16, "timeout_s": 3 * 3600, "n_cases": 320, "n_runs": 6000, "stat_every": 4,
               "required_classes": ["C12.systematic", "C12.categorical", "C12.w_degenerate", "C12.w_partly_neg_inf", "C12.N_1"]},
 )
